@@ -204,6 +204,9 @@ class AQTSimulator:
         gate: cirq.PhasedXPowGate | cirq.EigenGate
         for circuit_list in json_obj:
             op_str = circuit_list[0]
+            if op_str == OperationString.MEASURE.value:
+                # All qubits are measured at the end of the circuit, see below.
+                continue
             if op_str == 'R':
                 gate = cast(cirq.PhasedXPowGate, gate_dict[op_str])
                 theta = circuit_list[1]
